@@ -13,6 +13,7 @@ import PhotVerif.Driver.Psf
 import PhotVerif.Driver.Bkg
 import PhotVerif.Driver.Moments
 import PhotVerif.Driver.Units
+import PhotVerif.Driver.Effects
 namespace PhotVerif.Driver
 
 /-- driver state: the objects that live across lines (state-machine models) -/
@@ -20,7 +21,7 @@ structure DState where
   segm : Option PhotVerif.Model.Segm.State := none
 
 def handlers : List (String → List String → Option String) :=
-  [handleGeom, handleMask, handleApSum, handleDetect, handleDeblend, handleLazy, handleCatalog, handlePeaks, handleRender, handleApStats, handlePsf, handleBkg, handleMoments, handleUnits]
+  [handleGeom, handleMask, handleApSum, handleDetect, handleDeblend, handleLazy, handleCatalog, handlePeaks, handleRender, handleApStats, handlePsf, handleBkg, handleMoments, handleUnits, handleEffects]
 
 def dispatch (st : DState) (line : String) : DState × String :=
   match tokens line with
